@@ -455,7 +455,12 @@ func (env *SpecEnv) ident(name string) TVal {
 			return env.constVal(o)
 		case *types.Var:
 			hv := fc.TE.GlobalHeap(p.Path(), name, o.Type())
-			return TVal{T: fc.heapGet(env.Cur, hv), Ty: o.Type()}
+			gt := fc.heapGet(env.Cur, hv)
+			if gt.Sort == SIfc && types.Identical(o.Type(), types.Universe.Lookup("error").Type()) && !fc.S.Quiet {
+				// package-level error values (ErrClosed, ...) are set once at initialisation
+				fc.S.Assume(Not(Eq(gt, Term{"ifc_nil", SIfc})), "package-level error variable "+name+" is not nil")
+			}
+			return TVal{T: gt, Ty: o.Type()}
 		}
 	}
 	// ghost variables
@@ -569,6 +574,10 @@ func (fc *FnCtx) lookupLocal(env *SpecEnv, name string) (TVal, bool) {
 					continue
 				}
 				if obj := x.Object(); obj != nil && obj.Name() == name {
+					if obj.Pkg() != nil && obj.Parent() == obj.Pkg().Scope() {
+						// a use of a package-level variable, not a local: resolved as a global below
+						continue
+					}
 					consider(x.X, b)
 				}
 			}
